@@ -313,7 +313,7 @@ def build(a):
             names = ['id', 'a']
             tg = 't1.id, t1.a'
             if shape == 'cte_only_in_exists':
-                cond = f'EXISTS (SELECT 1 FROM {cname} WHERE {cname}.id = t1.id)'
+                cond = f'EXISTS (SELECT 1 FROM {cname} WHERE {cname}.b = 1)'
             elif shape == 'cte_only_in_target_subquery':
                 tg, names, cond = f't1.id, t1.a, (SELECT max(b) FROM {cname}) AS m', ['id', 'a', 'm'], ''
             elif shape == 'cte_only_in_not_in':
